@@ -69,7 +69,7 @@ fn ksplit(r: SplitResult<TriMesh>) -> &'static str { match r { SplitResult::Nega
 fn ksection(r: IntersectResult<crate::p3::shape::Polyline>) -> &'static str { match r { IntersectResult::Negative => "neg", IntersectResult::Positive => "pos", IntersectResult::Intersect(..) => "cut" } }
 fn same(x: &str, y: &str) -> &'static str { if x == y { "same" } else { "diff" } }
 /// functions that call a plane-section routine: run in a killable child process (see `tm_section`)
-fn calls_section(func: &str) -> bool { matches!(func, "tm_section" | "tm_section_pos" | "tm_canon_section" | "tm_plane_pos" | "tm_plane_canon" | "tm_verdict" | "tm_verdict_pos" | "tm_verdict_canon") }
+fn calls_section(func: &str) -> bool { matches!(func, "tm_section" | "tm_section_m" | "tm_section_pos" | "tm_canon_section" | "tm_plane_pos" | "tm_plane_canon" | "tm_verdict" | "tm_verdict_pos" | "tm_verdict_canon") }
 
 pub fn exec(func: &str, a: &mut Args) -> String {
     if std::env::var("C17_DRY").is_ok() { return "dry".into(); } // debugging aid: list the generated cases without calling parry
@@ -159,6 +159,8 @@ pub fn exec(func: &str, a: &mut Args) -> String {
             let _ = child.stdout.take().unwrap().read_to_string(&mut out);
             match out.trim().split(" | ").nth(1) { Some(o) => o.to_string(), None => "hang".into() }
         }
+        "tm_section_m" => { let m = mesh(a); let n = d3::v(a); let bias = a.f(); let eps = a.f();
+            fsection(m.intersection_with_local_plane(&Unit::new_unchecked(n), bias, eps)) }
         "tm_section" => { let m = mesh(a); let n = d3::v(a); let bias = a.f(); let eps = a.f();
             match m.intersection_with_local_plane(&Unit::new_unchecked(n), bias, eps) {
                 IntersectResult::Negative => "neg".into(), IntersectResult::Positive => "pos".into(),
@@ -642,7 +644,7 @@ pub fn gen(r: &mut Rng, thorough: bool) -> Vec<(String, String)> {
             let (lo, hi) = ds.iter().fold((f64::MAX, -f64::MAX), |(a, b), d| (a.min(*d), b.max(*d)));
             let k = r.below(mv.len() as u64) as usize;
             let t = mi[r.below(mi.len() as u64) as usize];
-            for _ in 0..2 {
+            for j in 0..2 {
                 let eps = *r.pick(&[0.0, 0.0, 1e-9, 1e-6, 1e-3, 0.125, 0.25]);
                 let bias = match r.below(6) {
                     0 => ds[k],                                             // through a vertex
@@ -653,7 +655,8 @@ pub fn gen(r: &mut Rng, thorough: bool) -> Vec<(String, String)> {
                 let args = format!("{} {} {} {}", hmesh(oriented, &mv, &mi), d3::hv(&nrm), hx(bias), hx(eps));
                 v.push(("tm_split".into(), args.clone()));
                 v.push(("tm_verdict".into(), args.clone()));
-                if v.len() % 2 == 0 { v.push(("tm_cut".into(), args.clone())); }
+                if j == 0 { v.push(("tm_cut".into(), args.clone())); }
+                v.push(("tm_section_m".into(), args.clone()));
                 v.push(("tm_section".into(), args));
             }
             if it % 8 == 0 {
